@@ -1,5 +1,9 @@
 mod gen_clvm;
 mod ops_clvm;
+mod ops_rich;
+mod ops_serde;
+mod p_rich;
+mod p_serde;
 mod pool;
 mod rich;
 mod util;
@@ -11,6 +15,8 @@ use serde_json::{json, Value};
 pub fn handle(job: &Value) -> Value {
     match job["op"].as_str().unwrap_or("") {
         "clvm" => ops_clvm::op_clvm(job),
+        "serde" => ops_serde::op_serde(job),
+        "rich" => ops_rich::op_rich(job),
         "ping" => json!({"pong": true}),
         other => json!({"error": format!("unknown op {other}")}),
     }
@@ -27,6 +33,10 @@ fn main() {
         "worker" => pool::worker_main(handle),
         "replay-clvm" => p_clvm::replay(&rest),
         "drive-clvm" => p_clvm::drive(&rest),
+        "replay-rich" => p_rich::replay(&rest),
+        "drive-rich" => p_rich::drive(&rest),
+        "replay-serde" => p_serde::replay(&rest),
+        "drive-serde" => p_serde::drive(&rest),
         "job" => {
             // run one job given as JSON on the command line, in process (for replay files)
             let j: Value = serde_json::from_str(&args[2]).expect("json job");
